@@ -86,11 +86,13 @@ func (r *RIBModule) register(interest *spec.Interest, pitToken []byte, inFace ui
 	faceID := inFace
 	if params.FaceId != nil && *params.FaceId != 0 {
 		faceID = *params.FaceId
-		if face.FaceTable.Get(faceID) == nil {
-			response = makeControlResponse(410, "Face does not exist", nil)
-			r.manager.sendResponse(response, interest, pitToken, inFace)
-			return
-		}
+	}
+	// Also the requesting face may be gone by now: the command was still on its
+	// way to the management thread when its sender disconnected.
+	if face.FaceTable.Get(faceID) == nil {
+		response = makeControlResponse(410, "Face does not exist", nil)
+		r.manager.sendResponse(response, interest, pitToken, inFace)
+		return
 	}
 
 	origin := table.RouteOriginApp
@@ -121,6 +123,15 @@ func (r *RIBModule) register(interest *spec.Interest, pitToken []byte, inFace ui
 		Flags:            flags,
 		ExpirationPeriod: expirationPeriod,
 	})
+	// The face may have been torn down between the check above and the insertion.
+	// Its teardown cleans the RIB only once (and leaves the face table first), so a
+	// route inserted after that would stay, towards a face that no longer exists.
+	if face.FaceTable.Get(faceID) == nil {
+		table.Rib.RemoveRouteEnc(params.Name, faceID, origin)
+		response = makeControlResponse(410, "Face does not exist", nil)
+		r.manager.sendResponse(response, interest, pitToken, inFace)
+		return
+	}
 	if expirationPeriod != nil {
 		core.LogInfo(r, "Created route for Prefix=", params.Name, ", FaceID=", faceID, ", Origin=", origin,
 			", Cost=", cost, ", Flags=0x", strconv.FormatUint(flags, 16), ", ExpirationPeriod=", expirationPeriod)
